@@ -312,6 +312,12 @@ func (e *explorer) runLayer(depth int, hs []history) (results [][2]*caseResult, 
 			if err := json.Unmarshal([]byte(res), &r); err != nil {
 				fw.Fatalf("child result %q: %v", res, err)
 			}
+			// aggregate right away; a thorough layer has > 10^6 cases
+			e.probes += int64(r.Probes)
+			for k, v := range r.Outs {
+				e.outcomes.AddN(k, int64(v))
+			}
+			r.Outs = nil
 			results[i/2][i%2] = &r
 		})
 	os.Remove(fpath)
@@ -414,10 +420,6 @@ func (e *explorer) explore() {
 				if hasLifetimeOp(h) {
 					e.nontrivial++
 				}
-				e.probes += int64(r.Probes)
-				for k, v := range r.Outs {
-					e.outcomes.AddN(k, int64(v))
-				}
 				switch r.Status {
 				case "ok":
 					okCases++
@@ -436,7 +438,21 @@ func (e *explorer) explore() {
 				// the model says the known defect's precondition holds: never expanded, whatever was observed
 				e.danglingSt++
 				if good {
-					e.outcomes.Inc("dangling-reference-state-survived")
+					// no failure observed: expected only when the host has no handle left to call through the slot
+					callable := false
+					for _, sl := range s.dangling() {
+						if !s.Drop[slotHolder[sl]] {
+							callable = true
+						}
+					}
+					if callable {
+						e.outcomes.Inc("dangling-reference-called-without-observable-failure")
+						if os.Getenv("C09_DEBUG") != "" {
+							fmt.Fprintf(os.Stderr, "c09: dangling but no failure: %s => %s\n", h, s)
+						}
+					} else {
+						e.outcomes.Inc("dangling-reference-not-callable-by-host")
+					}
 				}
 				good = false
 			} else if !good {
